@@ -342,3 +342,39 @@ func HarnessSyncInvariantStep(m int, n int, disabled int) {
 	vh.Assert("C06/sync-invariant-preserved-by-every-event", syncInv(sm, hs.tipHeight))
 	vh.Reach("end")
 }
+
+// HarnessInvWithoutSyncPeer (C06, step P7): no sync peer was ever chosen (every connected peer is
+// behind our tip) and the node considers itself current. A peer that has caught up announces a
+// block we do not know: it is asked for headers, and when it answers with the new header the
+// answer is processed - the peer is kept and asked for more - not dropped as "unrequested".
+func HarnessInvWithoutSyncPeer(n int, disabled int) {
+	disable := disabled == 1
+	sm, hs, cs, cps := c06Manager(n, disable)
+	hs.current = true
+	vh.Assume(hs.tipHeight >= 1 && hs.tipHeight < 1<<30)
+	p := peerpkg.HarnessSyncCandidate(vh.Logger(), 1, vh.NondetI32("peerHeight"))
+	vh.Assume(p.LastBlock() >= 0 && p.LastBlock() < hs.tipHeight) // behind us when it connected
+	sm.handleNewPeerMsg(p)
+	vh.Assert("C06/no-sync-peer-when-all-peers-are-behind", sm.syncPeer == nil && len(peerpkg.HarnessSent(p)) == 0)
+
+	blk := vh.NondetHash("announced")
+	vh.Assume(!vh.HashEq(blk, hs.tipHash))
+	inv := wire.NewMsgInv()
+	_ = inv.AddInvVect(wire.NewInvVect(wire.InvTypeBlock, &blk))
+	sm.handleInvMsg(&invMsg{inv: inv, peer: p})
+	vh.Assert("C06/announced-unknown-block-is-requested", len(peerpkg.HarnessSent(p)) == 1)
+
+	// the peer answers with the announced header, which extends our longest chain
+	nh := &domains.BlockHeader{Height: hs.tipHeight + 1, Hash: blk, State: domains.LongestChain}
+	for i := range cps {
+		vh.Assume(cps[i].Height != nh.Height) // not at a checkpoint height (that case is C07)
+	}
+	cs.kinds, cs.headers = []int{oStoredLongest}, []*domains.BlockHeader{nh}
+	hs.tipHeight, hs.tipHash = nh.Height, nh.Hash
+	msg := wire.NewMsgHeaders()
+	_ = msg.AddBlockHeader(&wire.BlockHeader{})
+	vh.Class("F3-answer-to-an-inv-triggered-request-dropped-as-unrequested-when-no-sync-peer-was-ever-chosen", true)
+	sm.handleHeadersMsg(&headersMsg{headers: msg, peer: p})
+	vh.Assert("C06/answer-to-our-own-request-is-processed", !peerpkg.HarnessDisconnected(p) && cs.calls == 1)
+	vh.Reach("end")
+}
